@@ -344,9 +344,24 @@ class Ctx:
         return thorough if self.thorough else quick
 
     # ---- proof layer
-    def proofs(self, prop_file: str | None = None, gen: Callable[[], None] | None = None) -> ProofResult:
+    def proofs(self, prop_file: str | None = None, gen: Callable[[], None] | None = None,
+               extra: Sequence[str] = ()) -> ProofResult:
         prop_file = prop_file or f'Props/{self.prop}.v'
         res = build_proofs(prop_file, gen=gen)
+        for more in extra:      # further property files (e.g. history-level statements shared between properties)
+            r2 = build_proofs(more, gen=None)
+            new = [n for n in r2.names if n not in res.names]
+            res.names += new
+            res.obligations += len(new)
+            res.discharged += len(new) if r2.ok else 0
+            res.files += [f for f in r2.files if f not in res.files]
+            res.assumptions.update(r2.assumptions)
+            res.failed += r2.failed
+            res.forbidden += r2.forbidden
+            res.log += r2.log
+            res.wall += r2.wall
+            res.cmd += f' ; same for {more}'
+            res.ok = res.ok and r2.ok
         self.proof = res
         log(f'[{self.prop}] proof layer: {res.discharged}/{res.obligations} obligations in {len(res.files)} files, '
             f'{"ok" if res.ok else "BROKEN"} ({res.wall:.1f}s)')
